@@ -145,6 +145,21 @@ Section C14.
     intros. eapply (optimise_all_idem sortS sortZ sortS_perm sortZ_perm); eassumption.
   Qed.
 
+  (* a single optimise_segment_group(a) on the current groups: every closure kept, group a left clean *)
+  Theorem single_group : forall segs G fuel a G',
+    acyclic G -> optimise_group sortS sortZ segs fuel G a = Ret G' ->
+    map gid G' = map gid G /\
+    (forall b s, reach segs G b s <-> reach segs G' b s) /\
+    exists g', lookup G' a = Some g' /\ NoDup (members g') /\ NoDup (includes g') /\
+               forall s i, In s (members g') -> In i (includes g') -> ~ reach segs G' i s.
+  Proof.
+    intros segs G fuel a G' Hac H.
+    destruct (optimise_group_spec sortS sortZ sortS_perm sortZ_perm segs fuel G a G' Hac H)
+      as [g [g' [_ [_ [_ [Hl' [[Hss Hr] [Hcl _]]]]]]]].
+    split; [apply same_shape_gids; exact Hss|]. split; [exact Hr|].
+    exists g'. split; [exact Hl'|]. destruct Hcl as [A [B C]]. auto.
+  Qed.
+
   (* ---- the shipped optimiser agrees with the repaired one when no group has two distinct includes *)
   Notation og := (optimise_group sortS sortZ).
   Notation og0 := (optimise_group_v0 sortS sortZ).
